@@ -230,6 +230,20 @@ def _run(ck, m):
     ck.ob('C15.c', 'is_full_acknowledged', 'equality-of-counters', isfull is not None,
           'is_full_acknowledged returns replicate_count == ack_count' if isfull is not None else
           'no (&ReplicationMessage) -> bool method returning replicate_count == ack_count', '')
+    # nothing but the removal of ONE fully acknowledged operation takes entries out of the table: a sweep (retain / clear / drain) forgets
+    # operations that some node has not acknowledged yet
+    sweeps = []
+    for b in P.user_bodies():
+        if b.id.startswith(('nundb::client::', 'nundb::command_line::')):
+            continue
+        for bi, t in b.calls():
+            if t['f'].get('dargs', '').startswith(PENDING) and callee_decl(t).split('::')[-1] in ('retain', 'clear', 'drain', 'extract_if', 'remove_entry', 'shrink_to'):
+                if callee_decl(t).split('::')[-1] != 'shrink_to':
+                    sweeps.append('%s in %s (%s)' % (callee_decl(t).split('::')[-1], short(b.id), b.loc(bi)))
+    ck.ob('C15.c', 'pending_opps', 'no-sweep-of-the-pending-table', not sweeps,
+          'entries leave the pending table one at a time (HashMap::remove under the fullness test)' if not sweeps else
+          'the pending table is swept: %s — operations that are still unacknowledged by some node stop being pending, and their late '
+          'acknowledgements are refused as unknown' % sweeps[:3], sweeps[0].split('(')[-1].rstrip(')') if sweeps else '')
     nrem = 0
     for b in mut:
         for bi, t in b.calls():
